@@ -260,6 +260,54 @@ def oracle_t0(case, r):
     return None
 
 
+def run_noisy_once(case, rate):
+    """one emu-mps quantum-jump trajectory with a relaxation channel on the same sequence (its results are not judged:
+    it only has to have happened in this process)"""
+    import torch
+    from harness import compat
+    from pulser.backend import Occupation
+    f64 = lambda x: np.array(x, dtype=np.float64)
+    L = math.sqrt(rate) * torch.tensor([[0.0, 1.0], [0.0, 0.0]], dtype=torch.complex128)
+    data = compat.make_sequence_data(f64(case["omega"]), f64(case["delta"]), f64(case["phi"]), f64(case["U"]), case["times"],
+                                     lindblad_ops=[L])
+    compat.run_mps(data, compat.mps_config(observables=[Occupation(evaluation_times=[1.0])], precision=case["precision"], dt=10))
+
+
+def history_leg(rep: Report, rng, tier: str) -> None:
+    """process history: noiseless run -> noisy run (one trajectory, relaxation) -> the same noiseless run again, all in
+    this process. The second noiseless run must reproduce the first (it is the same deterministic computation) and
+    satisfy the conservation oracle: nothing a noisy run does may leak into later noiseless runs."""
+    for _ in range(3 if tier == "quick" else 40):
+        case = gen(rng, "mps")
+        while case["n"] > 7:
+            case = gen(rng, "mps")
+        rep.case(key=("history", case["n"], case["omega"][0][0]), nontrivial=True)
+        try:
+            r1 = run_case(case)
+            run_noisy_once(case, rng.choice([0.5, 2.0]))
+            r2 = run_case(case)
+        except Exception as e:
+            import traceback
+            k = classify_exc(e)
+            where = traceback.extract_tb(e.__traceback__)[-1].name
+            rep.fail(f"[mps, noiseless run / noisy run / same noiseless run in one process] real back-end raised "
+                     f"{type(e).__name__} in {where}: {e}", ic.ser_case(case, stream="history"), klass=k)
+            continue
+        rep.count("history_triples")
+        msg = history_compare(case, r1, r2)
+        if msg:
+            rep.fail("[mps, noiseless run after a noisy run in the same process] " + msg, ic.ser_case(case, stream="history"))
+
+
+def history_compare(case, r1, r2):
+    for name in ("norm", "energy", "e2"):
+        for k, (a, b) in enumerate(zip(r1[name], r2[name])):
+            if not abs(a - b) <= 1e-10 * max(1.0, abs(a)):
+                return (f"{name} at index {k} is {b!r} in the second noiseless run, {a!r} in the first — the run in between "
+                        f"changed what a noiseless run computes")
+    return oracle(case, r2)[0]
+
+
 class CutoffTape:
     """wraps emu_mps.utils._determine_cutoff_index for the duration of a run (real call, arguments and answer
     recorded): every two-site truncation may discard at most precision² of squared weight — "normalised to
@@ -411,7 +459,8 @@ def check(rep: Report, tier: str, seed: int) -> None:
                 "plus a truncating emu-mps stream (6-8 atom entangling chains, max_bond_dim 2-4, precision 1e-2/1e-3) where the "
                 "state every observable receives must have norm 1 to 1e-10 and occupation/energy must be those of that state; "
                 "plus 10-12 atom runs whose bond dimension exceeds 16; plus a t=0 leg (emu-mps Energy / EnergySecondMoment / "
-                "EnergyVariance evaluated at t=0 on the default and on custom product initial states vs dense). Every emu-mps run is executed under a tape on "
+                "EnergyVariance evaluated at t=0 on the default and on custom product initial states vs dense); plus a process-history "
+                "leg (noiseless run, one noisy trajectory, the same noiseless run again in one process: identical and conserving). Every emu-mps run is executed under a tape on "
                 "_determine_cutoff_index: each truncation may discard at most precision^2 of squared weight. "
                 "non-trivial = window of >= 3 steps or >= 2 windows")
     rep.assumptions = [
@@ -527,6 +576,7 @@ def check(rep: Report, tier: str, seed: int) -> None:
         if msg:
             rep.fail("[mps, truncating run] " + msg, ic.ser_case(case, stream="truncating"))
     rep.extra["oracle_worst_over_allowed"] = {k: round(v, 5) for k, v in worst.items()}
+    history_leg(rep, rng, tier)
     # replay of the recorded witness of the known finding on the real code (DESIGN §2.4)
     try:
         run_case(dict(WITNESS_MPS))
@@ -568,7 +618,11 @@ def replay(rep: Report, path: str) -> int:
         try:
             tape = CutoffTape()
             with tape:
-                if case.get("stream") == "t0":
+                if case.get("stream") == "history":
+                    r1 = run_case(case)
+                    run_noisy_once(case, 2.0)
+                    msg = history_compare(case, r1, run_case(case))
+                elif case.get("stream") == "t0":
                     msg = oracle_t0(case, run_t0(case))
                 elif case.get("stream") == "truncating":
                     msg = oracle_truncating(case, run_truncating(case))[0]
